@@ -25,6 +25,12 @@ def run(ctx):
             elif L == 0: r.call(m, None, s)
             else: r.call(m + bytes(rnd.randrange(256) for _ in range(k % 3)), L, s)
             traces.append(r.trace(dict(kind='oneshot', L=L, salt=str(s)))); ctx.mark((name, L % Bb, L // Bb, L % 8, k % 4))
+        # page-sized one-shot messages (a whole number of pages, one byte more, one bit less; a salted one)
+        for n, L, s in (((4096, None, 0), (4097, None, salts[3]), (8192, 8 * 8192 - 1, 0), (5000, None, 0)) + (((12288, None, 0), (16384 + 3, None, salts[2])) if big else ())) if (big or name in ('blake256', 'blake512')) else ((4096, None, 0), (4097, None, 0)):
+            r = H.Rec(name); m = H.content(rnd, n, 0)
+            if s or L is not None: r.call(m, L, s)
+            else: r.call(m)
+            traces.append(r.trace(dict(kind='long', n=n, salt=str(s)))); ctx.mark((name, 'long', n))
         r = H.Rec(name)
         for n, over in ((0, 1), (3, 2), (Bb // 8, 8)): r.call(H.content(rnd, n, 0), 8 * n + over)
         traces.append(r.trace(dict(kind='overlong')))
@@ -49,6 +55,9 @@ def run(ctx):
         for n in lens:
             r = B2.Rec2(b, single if n % 2 else None)
             r.call(H.content(rnd, n, n % 5), B2.par(b)); t2.append(r.trace(dict(kind='len', n=n))); ctx.mark(('b2', b, 'len', n))
+        for n in ((4096, 4097, 8192, 5000) + ((12288, 16384 + 3) if big else ())):                                   # page-sized one-shot messages
+            r = B2.Rec2(b, single if n % 2 else None)
+            r.call(H.content(rnd, n, 0), B2.par(b)); t2.append(r.trace(dict(kind='long', n=n))); ctx.mark(('b2', b, 'long', n))
         outs = range(1, mx + 1) if big else [1, 2, 20, mx // 2, mx - 1, mx]
         for o in outs:
             r = B2.Rec2(b); r.call(H.content(rnd, (o * 7) % (2 * Bb + 3), 0), B2.par(b, outlen=o), explicit_outlen=True); t2.append(r.trace(dict(kind='outlen', o=o))); ctx.mark(('b2', b, 'out', o))
